@@ -147,6 +147,8 @@ class Treeifier:
                 return name, e.ufl_operands
         if isinstance(e, uc.Power):
             p = e.ufl_operands[1]
+            if isinstance(p, uc.ComplexValue) and complex(p.value()).imag != 0:
+                return "pow", e.ufl_operands
             if isinstance(p, (uc.IntValue, uc.FloatValue, uc.ScalarValue)) and float(p.value()) != int(p.value()) \
                     and float(p.value()) != 0.5:
                 return "pow", e.ufl_operands
